@@ -43,6 +43,7 @@ Consume(e) ==
   \/ e.ev = "add_records"  /\ AddRecords(e.s, e.n)
   \/ e.ev = "query"        /\ QueryTop(e.s, e.kk, e.thr)
   \/ e.ev = "getitem"      /\ GetItem(e.s, e.k)
+  \/ e.ev = "generate"     /\ Generate(e.s, e.thr)
   \* an observed sketch whose true stream is known (result of a real spawned parallel_add, whose
   \* merge order is not observable): the invariants are evaluated on the observed state
   \/ e.ev = "observe"      /\ sk' = [sk EXCEPT ![e.s] = e.state]
